@@ -2,7 +2,7 @@
    ONLY statements closed by [exact], each followed by Print Assumptions.
    Per-axis statements quantify over every axis lo < hi with k > 0 cells (geometry in Q);
    field statements over every value type V. *)
-From DF Require Import Prelude Constants_gen Region Mesh Select C01_axis C07_axis C07_nd C07_pad C07_accept C07_ops C07_getitem C07_examples.
+From DF Require Import Prelude Constants_gen Region Mesh Select C01_axis C07_axis C07_nd C07_pad C07_accept C07_ops C07_getitem C07_examples CheckSound Check_C07 C07_sound.
 Open Scope Q_scope.
 
 (* pointwise: inside the block the source cell of a point is the block cell shifted by the offset (range selection, extraction by region / name) *)
@@ -800,3 +800,236 @@ Theorem C07_reject_unknown_name :
   forall (m : mesh) (name : string), lookup name (subs m) = None -> getitem_name m name = Err KeyE.
 Proof. exact (@getitem_name_missing). Qed.
 Print Assumptions C07_reject_unknown_name.
+
+(* ================= phase 4: the tie, proved - soundness of check_C07 and transfer ================= *)
+(* [agrees R r o]: the model result r and the observed outcome o both succeed and are related by R, or
+   both reject.  [mesh_obs] / [field_obs] / [fres_obs]: corners, subregion corners and values agree
+   (Qeq), counts, dimension names and validity are equal; arrays are listed in C order over the
+   result's indices ([vals_obs]). *)
+
+(* a shard case that evaluates to true certifies that the OBSERVED outcome is the model's *)
+Theorem C07_check_pad_sound : forall s pw md om ofd,
+  check_C07 (CPad s pw md om ofd) = true ->
+  exists F, build_field s = OK F /\
+    agrees mesh_obs (mesh_pad (fmesh F) pw) om /\
+    agrees field_obs (field_pad (repeat 0 (s_nvdim s)) F pw md) ofd.
+Proof. exact check_pad_sound. Qed.
+Print Assumptions C07_check_pad_sound.
+
+Theorem C07_check_resample_sound : forall s n' ofd,
+  check_C07 (CResample s n' ofd) = true ->
+  exists F, build_field s = OK F /\ agrees field_obs (field_resample F n') ofd.
+Proof. exact check_resample_sound. Qed.
+Print Assumptions C07_check_resample_sound.
+
+Theorem C07_check_getname_sound : forall s name om ofd,
+  check_C07 (CGetName s name om ofd) = true ->
+  exists F, build_field s = OK F /\
+    agrees mesh_obs (getitem_name (fmesh F) name) om /\
+    agrees field_obs (field_getitem_name F name) ofd.
+Proof. exact check_getname_sound. Qed.
+Print Assumptions C07_check_getname_sound.
+
+Theorem C07_check_getregion_sound : forall s q1 q2 om ofd,
+  check_C07 (CGetRegion s q1 q2 om ofd) = true ->
+  exists F item, build_field s = OK F /\ mk_region q1 q2 None None sub_default_tf = OK item /\
+    agrees mesh_obs (getitem_region (fmesh F) item) om /\
+    agrees field_obs (field_getitem_region F item) ofd.
+Proof. exact check_getregion_sound. Qed.
+Print Assumptions C07_check_getregion_sound.
+
+Theorem C07_check_slices_sound : forall s q1 q2 o,
+  check_C07 (CSlices s q1 q2 o) = true ->
+  exists m item, build_mesh s = OK m /\ mk_region q1 q2 None None sub_default_tf = OK item /\
+    agrees eq (region2slices m item) o.
+Proof. exact check_slices_sound. Qed.
+Print Assumptions C07_check_slices_sound.
+
+(* selection: a coordinate exactly on an interior cell face belongs to both neighbours; the accepted
+   observation is the model's for the request itself or for its lower-neighbour representative *)
+Theorem C07_check_sel_sound : forall s a arg om ofd,
+  check_C07 (CSel s a arg om ofd) = true ->
+  exists F arg', build_field s = OK F /\ In arg' (sel_alts (fmesh F) a arg) /\
+    agrees mesh_obs (mesh_sel (fmesh F) a arg') om /\
+    agrees fres_obs (field_sel F a arg') ofd.
+Proof. exact check_sel_sound. Qed.
+Print Assumptions C07_check_sel_sound.
+
+(* scale regime: the observed block satisfies the per-axis lattice test and holds exactly the source
+   values / validity at the offset of its lower corner *)
+Theorem C07_check_blockscale_sound : forall s kind a q1 q2 rlo rhi rn d sb vals valid,
+  check_C07 (CBlockScale s kind a q1 q2 (Some (ObsField (ObsMesh rlo rhi rn d sb) vals valid))) = true ->
+  exists F xlos xhis, build_field s = OK F /\
+    let off := block_offsets (fmesh F) rlo in
+    block_ok (pmin (reg (fmesh F))) (pmax (reg (fmesh F))) (n (fmesh F)) rlo rhi rn xlos xhis = true /\
+    vals_obs rn (fun i => fval F (add_idx i off)) vals /\
+    valid = map (fun i => fvalid F (add_idx i off)) (indices_c rn).
+Proof. exact check_blockscale_sound. Qed.
+Print Assumptions C07_check_blockscale_sound.
+
+(* ... where the per-axis test bounds the distance of both observed corners to lattice positions by
+   1e-9 of the axis scale and keeps the block inside the source *)
+Theorem C07_block_axis_ok_sound : forall lo hi k rlo rhi rk xlo xhi,
+  block_axis_ok lo hi k rlo rhi rk xlo xhi = true ->
+  let c := cell_of lo hi k in
+  let off := Qround_half_even ((rlo - lo) / c) in
+  Qabs (rlo - (lo + inject_Z off * c)) <= rel_tol * axis_scale lo hi /\
+  Qabs (rhi - (lo + inject_Z (off + rk) * c)) <= rel_tol * axis_scale lo hi /\
+  (0 < rk)%Z /\ (0 <= off)%Z /\ (off + rk <= k)%Z.
+Proof. exact block_axis_ok_sound. Qed.
+Print Assumptions C07_block_axis_ok_sound.
+
+(* the source the checker builds is the recorded one and, for a tolerance factor >= 0, well-formed:
+   every theorem above stated for wf_mesh m applies to it *)
+Theorem C07_build_mesh_wf : forall s m,
+  build_mesh s = OK m ->
+  n m = s_n s /\ dims (reg m) = s_dims s /\
+  pmin (reg m) = map2 Qmin (s_p1 s) (s_p2 s) /\ pmax (reg m) = map2 Qmax (s_p1 s) (s_p2 s) /\
+  tf (reg m) = s_tf s /\
+  (0 <= s_tf s -> wf_mesh m).
+Proof. exact build_mesh_inv. Qed.
+Print Assumptions C07_build_mesh_wf.
+
+Theorem C07_build_field : forall s F,
+  build_field s = OK F ->
+  build_mesh s = OK (fmesh F) /\
+  fval F = arr_of [] (s_n s) (s_vals s) /\ fvalid F = arr_of false (s_n s) (s_valid s) /\
+  length (s_vals s) = Z.to_nat (zprod (s_n s)) /\ length (s_valid s) = Z.to_nat (zprod (s_n s)).
+Proof. exact build_field_inv. Qed.
+Print Assumptions C07_build_field.
+
+(* a whole shard: no failing index means every case was accepted *)
+Theorem C07_shard_verdict : forall cases k,
+  failing k (map check_C07 cases) = [] -> forall c, In c cases -> check_C07 c = true.
+Proof. exact shard_verdict. Qed.
+Print Assumptions C07_shard_verdict.
+
+(* transfer (C07_pointwise_pad_values on the observation): every observed value / validity flag of
+   Field.pad, listed in C order over the observed shape, is the recorded source's at the cell the
+   mode's index map names, or the constant fill 0 / False *)
+Theorem C07_accepted_pad_values : forall s pw md om lo hi n_ d sb vals valid,
+  check_C07 (CPad s pw md om (Some (ObsField (ObsMesh lo hi n_ d sb) vals valid))) = true ->
+  Forall2 (fun i v => match pad_index md (s_n s) pw i with
+                      | Some j => Forall2 Qeq (arr_of [] (s_n s) (s_vals s) j) v
+                      | None => Forall2 Qeq (repeat 0 (s_nvdim s)) v
+                      end) (indices_c n_) vals /\
+  valid = map (fun i => match pad_index md (s_n s) pw i with
+                        | Some j => arr_of false (s_n s) (s_valid s) j
+                        | None => false
+                        end) (indices_c n_).
+Proof. exact accepted_pad_values. Qed.
+Print Assumptions C07_accepted_pad_values.
+
+(* transfer (C07_accept_pad_mesh on the observation): the observed counts are the source counts plus
+   the widths, the observed corners the source corners moved by width * cell, names kept *)
+Theorem C07_accepted_pad_shape : forall s pw md om lo hi n_ d sb vals valid,
+  check_C07 (CPad s pw md om (Some (ObsField (ObsMesh lo hi n_ d sb) vals valid))) = true ->
+  0 <= s_tf s ->
+  exists m, build_mesh s = OK m /\ wf_mesh m /\
+    n_ = map2 (fun (k : Z) (w : Z * Z) => (k + fst w + snd w)%Z) (s_n s) pw /\
+    Forall2 Qeq (map3 pad_lo (pmin (reg m)) (cell m) pw) lo /\
+    Forall2 Qeq (map3 pad_hi (pmax (reg m)) (cell m) pw) hi /\
+    d = s_dims s.
+Proof. exact accepted_pad_shape. Qed.
+Print Assumptions C07_accepted_pad_shape.
+
+(* transfer (C07_resample_region on the observation): the observed field lives on the recorded
+   corners with the requested resolution and reads the source cell containing each new centre *)
+Theorem C07_accepted_resample : forall s n' lo hi n_ d sb vals valid,
+  check_C07 (CResample s n' (Some (ObsField (ObsMesh lo hi n_ d sb) vals valid))) = true ->
+  exists F R, build_field s = OK F /\ field_resample F n' = OK R /\
+    n_ = n' /\
+    Forall2 Qeq (map2 Qmin (s_p1 s) (s_p2 s)) lo /\ Forall2 Qeq (map2 Qmax (s_p1 s) (s_p2 s)) hi /\
+    d = s_dims s /\
+    vals_obs n' (fun j => arr_of [] (s_n s) (s_vals s) (resample_src (fmesh F) (fmesh R) j)) vals /\
+    valid = map (fun j => arr_of false (s_n s) (s_valid s) (resample_src (fmesh F) (fmesh R) j)) (indices_c n').
+Proof. exact accepted_resample. Qed.
+Print Assumptions C07_accepted_resample.
+
+(* transfer (C07_pointwise_block_values on the observation): an observed extraction by region is the
+   recorded source at a fixed index offset *)
+Theorem C07_accepted_getregion_values : forall s q1 q2 om lo hi n_ d sb vals valid,
+  check_C07 (CGetRegion s q1 q2 om (Some (ObsField (ObsMesh lo hi n_ d sb) vals valid))) = true ->
+  exists F item sub off, build_field s = OK F /\ mk_region q1 q2 None None sub_default_tf = OK item /\
+    getitem_region (fmesh F) item = OK sub /\ block_offset (fmesh F) sub = OK off /\
+    mesh_obs sub (ObsMesh lo hi n_ d sb) /\
+    vals_obs n_ (fun i => arr_of [] (s_n s) (s_vals s) (add_idx i off)) vals /\
+    valid = map (fun i => arr_of false (s_n s) (s_valid s) (add_idx i off)) (indices_c n_).
+Proof. exact accepted_getregion_values. Qed.
+Print Assumptions C07_accepted_getregion_values.
+
+(* transfer (C07_plane + C07_pointwise_plane_values on the observation, face alternative discharged):
+   an observed plane selection is the recorded source with plane index k re-inserted, where cell k
+   of the chosen axis contains the REQUESTED coordinate x in its closed extent *)
+Theorem C07_accepted_plane : forall s a x om lo hi n_ d sb vals valid,
+  check_C07 (CSel s a (SPoint x) om (Some (ObsField (ObsMesh lo hi n_ d sb) vals valid))) = true ->
+  0 <= s_tf s ->
+  exists F k, build_field s = OK F /\ wf_mesh (fmesh F) /\
+    (let m := fmesh F in
+     let l := nth a (pmin (reg m)) 0 in let c := nth a (cell m) 0 in
+     (0 <= k < nth a (n m) 1)%Z /\ l + inject_Z k * c <= x /\ x <= l + (inject_Z k + 1) * c) /\
+    vals_obs n_ (fun i => arr_of [] (s_n s) (s_vals s) (insert_nth a k i)) vals /\
+    valid = map (fun i => arr_of false (s_n s) (s_valid s) (insert_nth a k i)) (indices_c n_).
+Proof. exact accepted_plane_contains. Qed.
+Print Assumptions C07_accepted_plane.
+
+(* transfer (C07_range_indices + C07_pointwise_range_values on the observation): an observed range
+   selection is the recorded source shifted by the first kept index; first / last kept cell are
+   ordered, in range and contain their (face-representative) ends of the range *)
+Theorem C07_accepted_range : forall s a x1 x2 om lo hi n_ d sb vals valid,
+  check_C07 (CSel s a (SRange x1 x2) om (Some (ObsField (ObsMesh lo hi n_ d sb) vals valid))) = true ->
+  0 <= s_tf s ->
+  exists F y1 y2 i1 i2, build_field s = OK F /\ wf_mesh (fmesh F) /\
+    In y1 (coord_alts (fmesh F) a (Qmin x1 x2)) /\ In y2 (coord_alts (fmesh F) a (Qmax x1 x2)) /\
+    (let m := fmesh F in
+     let l := nth a (pmin (reg m)) 0 in let c := nth a (cell m) 0 in
+     (0 <= i1)%Z /\ (i1 <= i2)%Z /\ (i2 < nth a (n m) 1)%Z /\
+     l + inject_Z i1 * c <= Qmin y1 y2 /\ Qmin y1 y2 <= l + (inject_Z i1 + 1) * c /\
+     l + inject_Z i2 * c <= Qmax y1 y2 <= l + (inject_Z i2 + 1) * c) /\
+    vals_obs n_ (fun i => arr_of [] (s_n s) (s_vals s) (shift_nth a i1 i)) vals /\
+    valid = map (fun i => arr_of false (s_n s) (s_valid s) (shift_nth a i1 i)) (indices_c n_).
+Proof. exact accepted_range. Qed.
+Print Assumptions C07_accepted_range.
+
+(* the face alternative: a cell whose closed extent contains the representative contains the coordinate *)
+Theorem C07_face_alternative_contains : forall m a x x' k,
+  wf_mesh m -> (a < length (pmin (reg m)))%nat -> In x' (coord_alts m a x) ->
+  let l := nth a (pmin (reg m)) 0 in let c := nth a (cell m) 0 in
+  l + inject_Z k * c <= x' -> x' <= l + (inject_Z k + 1) * c ->
+  l + inject_Z k * c <= x /\ x <= l + (inject_Z k + 1) * c.
+Proof. exact coord_alts_contains. Qed.
+Print Assumptions C07_face_alternative_contains.
+
+(* an observed rejection of Field.sel is a rejection by the model *)
+Theorem C07_accepted_sel_reject : forall s a arg om,
+  check_C07 (CSel s a arg om None) = true ->
+  exists F arg' e, build_field s = OK F /\ In arg' (sel_alts (fmesh F) a arg) /\ field_sel F a arg' = Err e.
+Proof. exact accepted_sel_reject. Qed.
+Print Assumptions C07_accepted_sel_reject.
+
+(* non-vacuity: concrete accepted cases *)
+Example C07_accepted_pad_instance :
+  check_C07 (CPad (mkSrc [0] [2] [2%Z] (1 # 1000000000000) ["x"%string] [] 1%nat [[50]; [51]] [true; true])
+                  [(1%Z, 2%Z)] PConstant
+                  (Some (ObsMesh [- (1)] [4] [5%Z] ["x"%string] []))
+                  (Some (ObsField (ObsMesh [- (1)] [4] [5%Z] ["x"%string] [])
+                                  [[0]; [50]; [51]; [0]; [0]] [false; true; true; false; false]))) = true.
+Proof. exact accepted_pad_instance. Qed.
+Print Assumptions C07_accepted_pad_instance.
+
+Example C07_accepted_resample_instance :
+  check_C07 (CResample (mkSrc [0] [2] [2%Z] (1 # 1000000000000) ["x"%string] [] 1%nat [[50]; [51]] [true; false])
+                  [4%Z]
+                  (Some (ObsField (ObsMesh [0] [2] [4%Z] ["x"%string] [])
+                                  [[50]; [50]; [51]; [51]] [true; true; false; false]))) = true.
+Proof. exact accepted_resample_instance. Qed.
+Print Assumptions C07_accepted_resample_instance.
+
+Example C07_accepted_plane_instance :
+  check_C07 (CSel (mkSrc [0; 0] [2; 2] [2%Z; 2%Z] (1 # 1000000000000) ["x"%string; "y"%string] [] 1%nat
+                         [[1]; [2]; [3]; [4]] [true; true; false; true])
+                  0 (SPoint 1)
+                  (Some (ObsMesh [0] [2] [2%Z] ["y"%string] []))
+                  (Some (ObsField (ObsMesh [0] [2] [2%Z] ["y"%string] []) [[3]; [4]] [false; true]))) = true.
+Proof. exact accepted_plane_instance. Qed.
+Print Assumptions C07_accepted_plane_instance.
